@@ -117,6 +117,14 @@ impl Backoff {
     }
 }
 
+#[cfg(p2panda_p2panda_verif)]
+impl Backoff {
+    /// Verification hook: current backoff value.
+    pub fn verif_value(&self) -> Duration {
+        self.value
+    }
+}
+
 #[cfg(test)]
 mod tests {
     use std::time::Duration;
